@@ -119,3 +119,24 @@ more4("C15", "once the signature is on the image object Sign does not report fai
 more4("C17", "the whole input is converted.")
 more4("C18", "Boot#### numbers cover the full 16-bit range; device-path numbers are rendered from little-endian wire fields of their declared width (this rule found and led to the repair of the GPT signature rendering).")
 more4("C19", "readers handed out share no live cursor with the object.")
+
+
+def more5(i, extra):
+    t, text, ref = CLAIMS[i]
+    CLAIMS[i] = (t, text + " Added with the fifth batch (DESIGN.md §10.8): " + extra, ref)
+
+more5("C01", "the zero padding is computed from the size of the whole file.")
+more5("C03", "a failing reader while the image is hashed makes signing fail.")
+more5("C05", "the signed attributes are a DER SET OF for every content type (this rule found and led to the repair of Attributes.Marshal); id-data is signed detached; the embedded attribute bytes are not rearranged after signing.")
+more5("C06", "id-data is signed detached whatever the content.")
+more5("C07", "every decoded list is kept on every iteration; the entry loop is not capped by a constant; a refused edit changes nothing; Unmarshal gives its receiver what was decoded.")
+more5("C08", "a failure is not reported with an error that is nil at that point; an io.EOF handed back by a header helper comes from its first read only.")
+more5("C09", "a refusal by a matching list is reported, not worked around with a new list.")
+more5("C10", "a decoded descriptor shares no memory with its input; Unmarshal gives its receiver what was decoded, not constants.")
+more5("C11", "the variable name reaches the path without a case conversion; no constant cap on the value read.")
+more5("C12", "what is read back is as long as what was stored.")
+more5("C13", "a failure is not reported with an error variable that is nil at that point; decoding adds nothing to package-level containers.")
+more5("C14", "a failure is not reported with an error variable that is nil at that point; decoding adds nothing to package-level containers.")
+more5("C15", "the error of a read is looked at before a short count is taken for the end of the input; nothing changes the filesystem before signing succeeded.")
+more5("C18", "a GUID kept as bytes is taken apart in its in-structure layout; node fields are decoded in the order their structure declares; the UTF-16 byte-order policy of C17.")
+more5("C19", "no output in map iteration order; pooled state is reset on every path that used it.")
